@@ -473,6 +473,10 @@ Qed.
 Lemma lput_lstep s op s' : lput s op = Ok s' -> lstep (st s) op = Ok (st s').
 Proof. unfold lput. destruct (lstep (st s) op); intros H; inversion H; subst; reflexivity. Qed.
 
+Lemma L_surv_pg : L_SURV <> L_PG. Proof. unfold L_SURV, L_PG. lia. Qed.
+Lemma L_surv_trace : L_SURV <> L_TRACE. Proof. unfold L_SURV, L_TRACE. lia. Qed.
+Lemma L_trace_pg : L_TRACE <> L_PG. Proof. unfold L_TRACE, L_PG. lia. Qed.
+
 Lemma remove_hole_clears s h v s' :
   AllTiled (st s) -> outcome (api_step s (RemoveHole h v)) = Some s' ->
   forall lab, lab < 3 -> forall t r, sget lab (st s') = Some t -> In r (rows t) -> oid r <> h.
@@ -486,10 +490,10 @@ Proof.
   rewrite Hst in Hg.
   assert (Hc : lab = L_SURV \/ lab = L_TRACE \/ lab = L_PG) by (unfold L_SURV, L_TRACE, L_PG; lia).
   destruct Hc as [-> | [-> | ->]].
-  - rewrite (del_other_label _ _ _ _ _ L_SURV A4 ltac:(cbv; discriminate) E5) in Hg.
-    rewrite (del_other_label _ _ _ _ _ L_SURV A3 ltac:(cbv; discriminate) E4) in Hg.
-    eapply (del_clears _ _ _ _ _ A2 eq_refl E3); eassumption.
-  - rewrite (del_other_label _ _ _ _ _ L_TRACE A4 ltac:(cbv; discriminate) E5) in Hg.
-    eapply (del_clears _ _ _ _ _ A3 eq_refl E4); eassumption.
-  - eapply (del_clears _ _ _ _ _ A4 eq_refl E5); eassumption.
+  - rewrite (del_other_label _ _ _ _ _ L_SURV A4 L_surv_pg E5) in Hg.
+    rewrite (del_other_label _ _ _ _ _ L_SURV A3 L_surv_trace E4) in Hg.
+    eapply (del_clears (st s2) L_SURV h 0 (st s3) A2 eq_refl E3); eassumption.
+  - rewrite (del_other_label _ _ _ _ _ L_TRACE A4 L_trace_pg E5) in Hg.
+    eapply (del_clears (st s3) L_TRACE h 0 (st s4) A3 eq_refl E4); eassumption.
+  - eapply (del_clears (st s4) L_PG h 0 (st s5) A4 eq_refl E5); eassumption.
 Qed.
